@@ -125,6 +125,7 @@ package rollout
 //@ ensures pods_upgraded_only_in_upgrade_states: #upgrade > 0 ==> (st0(c) == S_Init() || st0(c) == S_Upgrade()) && !jumped()
 //@ ensures jump_does_nothing_else: jumped() ==> #upgrade == 0 && #doTR == 0 && #paused == 0 && result == nil
 //@ ensures {C03} stable_pinned_before_first_upgrade: #upgrade > 0 && st0(c) == S_Init() && idx0(c) == 1 && old(stepHasTraffic(c)) && !old(c.Rollout.Spec.Strategy.Canary.DisableGenerateCanaryService) ==> #patchStable == 1 && !#patchStable.ret0 && #patchStable.ret1 == nil
+//@ ensures {C03} init_left_only_with_stable_pinned: st0(c) == S_Init() && st1(c) != S_Init() && !jumped() && idx0(c) == 1 && old(stepHasTraffic(c)) && !old(c.Rollout.Spec.Strategy.Canary.DisableGenerateCanaryService) ==> #patchStable == 1 && !#patchStable.ret0 && #patchStable.ret1 == nil
 //@ ensures {C04} stable_unpinned_before_full_replacement: #upgrade > 0 && st0(c) == S_Init() && old(stepHasTraffic(c)) && #restoreStable > 0 ==> !#restoreStable.ret0 && #restoreStable.ret1 == nil
 // the batch that BatchRelease will roll is computed with round-up (control.CalculateBatchReplicas); a step whose rounded-up
 // replica count covers the whole workload replaces every stable pod, so the stable Service must be un-pinned first
